@@ -107,3 +107,24 @@ PROPS["C03"] = dict(
         dict(name="child", run="^TestStdFallbackChild$", quick=600, thorough=16000, shards=16, timeout_thorough=3000),
     ],
 )
+
+PROPS["C13"] = dict(
+    pkg="c13", level="fault_enumeration",
+    technique="fault injection with enumerated and rapid-generated failure schedules on recording writers, against a bounded-reaction model",
+    claim=("Every fail/succeed assignment to the first k Write attempts (k=8 quick, 12 thorough; partial and zero counts) is enumerated on 4 "
+           "canonical writer configurations x 3 logger levels, and rapid draws further configurations (1-3 normal / 1-3 error / 0-2 per-level "
+           "writers with sharing, all 12 logger levels, 3 formats), call sequences, schedules and permanently failing writers. Per call: "
+           "returns normally, every selected destination gets the whole record exactly once, at most one diagnostic (to the warning "
+           "destinations, none for a failing warning or when Warn is not admitted), no cascade; after the faults stop every call is "
+           "delivered exactly once with no diagnostics."),
+    note="A cascade guard turns more than 200 Write attempts in one call into a violation instead of a stack overflow. Termination disabled (LnoInterrupt).",
+    rule=("enumeration: bitmask over the global order of Write attempts; generation: rapid draws pool size 2-6, writer lists (with shared "
+          "writers), per-level lists, logger level, format, 1-12 calls at any built-in severity, up to 40 fail bits with partial-count flags, "
+          "an optional set of permanently failing writers, and 1-6 fault-free suffix calls. Non-trivial: a failure on a writer that is not the "
+          "last of its list, or a failing diagnostic, or a failure followed by checked recovery; distinct = the whole scenario."),
+    assumptions=["destinations are computed with the C03 routing model, admission of the diagnostic with the C01 rule"],
+    stages=[
+        dict(name="exhaustive", run="^TestExhaustiveSchedules$", quick=1, thorough=1, timeout_thorough=3000),
+        dict(name="generated", run="^TestGeneratedFaults$", quick=20000, thorough=800000, shards=16, timeout_thorough=3000),
+    ],
+)
